@@ -246,6 +246,8 @@ def _states_range(arg):
     for st in tlaval.iter_dump_range(path, start, end):
         n += 1
         res, nt, smp = judge(st, ctx)
+        # keep the whole state with a violation so that `./check <ID> --replay` can re-run it
+        res = [(k, sig, (dict(c, state=tlaval.to_jsonable(st), ctx=ctx) if k == "violation" and isinstance(c, dict) else c), d) for k, sig, c, d in res]
         nontrivial += nt
         if smp is not None and len(sample) < 3:
             sample.append(smp)
@@ -270,3 +272,21 @@ def replay_states(v: "Verdict", path: str, judge, ctx=None, procs: int = 16):
                     v.report(sig, case, detail)
                 else:
                     v.drift(sig, case, detail)
+
+
+def replay_state(judge, case, prop):
+    """Generic --replay for per-state checks: re-run the judge on the recorded state."""
+    from . import tlaval
+    ensure_repo_on_path()
+    c = case.get("case", {})
+    if "state" not in c:
+        print(f"replay {prop}: the recorded case holds no state; detail was: {case.get('detail')}")
+        return 1
+    st = tlaval.from_jsonable(c["state"])
+    res, _, _ = judge(st, c.get("ctx"))
+    if not any(k == "violation" for k, *_ in res):
+        print(f"replay {prop}: the recorded case conforms on this tree")
+        return 0
+    for k, sig, _, detail in res:
+        print(f"replay {prop}: {k} [{sig}] {detail}")
+    return 1
